@@ -46,7 +46,7 @@ Functions those changes edited (choose code elsewhere if you can): {funcs}.
 {extra}
 """
 
-EXTRA = """Find a DIFFERENT mechanism with a DIFFERENT kind of trigger. Read widely first (lexer, parser, ast, object, evaluator, built-in functions, template loading in the root package, fail/, config/, ctx/, token/, utils/), including how the pieces call each other, and read the statement of the property sentence by sentence and its "Quantified over" line dimension by dimension: pick a clause, a listed construct, a listed case or a dimension of the quantifier that none of the earlier changes attacked, or attack an attacked clause through a construct, an API entry point (EvaluateString, EvaluateFile, NewTemplate, Template.String, Template.Response, Configure, the Register*Func family) or a configuration that none of them used. Prefer a change whose trigger somebody testing this property with randomly generated templates, data and call sequences would plausibly NOT generate: a legal but unusual spelling or clause form, a rarely used built-in, directive, option or API entry point, a combination of two or three constructs, a value at a boundary of a type or a length, a name or path with an unusual shape, a particular order or repetition of calls, a file system detail, a less common Go type in the data, a particular nesting depth or count (the third of something, more than N of something), a particular position (first, last, only) of something, a size threshold. It must be something a maintainer would plausibly do (a small feature or convenience with one corner wrong, a helper extracted that is not equivalent for one caller, a data structure change, a reordered check, a library call with slightly different semantics, an early return or fast path, a cache, a 'simplification', a fixed-size buffer or limit, an error message 'improvement'). The change must still break the stated property for a whole class of inputs (say which), compile, and keep the existing suite green. In this round prefer a change that shows only on a FAILING PATH of the property: read its clauses about faults sentence by sentence - what must be reported as an error, that an error comes without output (or with exactly the error page), which of several simultaneous faults is the one reported, what the error names (a file, a line, a component, a function, a type), that a failing call leaves data, configuration and loaded templates as they were, that a fault in one place (an argument, a branch not taken, a later pass of a loop, a file that is not rendered) is or is not a fault of the call - and look for code where a fault is detected late, converted (error object to string, to nil, to false, to an empty value), swallowed by a construct that inspects its operand (a ternary, a condition, a @dump, a built-in like then(), contains() or len(), string concatenation, array or object construction, a comparison), raised for a legal input by an over-eager validation, or reported with the right text but the wrong kind (an error where output was due, output where an error was due, a panic, a nil error with empty output, an error AND output). A successful path that is only reached after a failure was handled counts as well (the custom error page, the call after a failed call, the pass after a pass that hit @continueIf on a failing condition). The change must keep every fault-free use of the library working, and it must be a fault class that plausibly occurs (an undefined name, a mistyped operand, a missing file, a division by zero, an index out of range, an unsupported value in the data, an unknown function), not an exotic one."""
+EXTRA = """Find a DIFFERENT mechanism with a DIFFERENT kind of trigger. Read widely first (lexer, parser, ast, object, evaluator, built-in functions, template loading in the root package, fail/, config/, ctx/, token/, utils/), including how the pieces call each other, and read the statement of the property sentence by sentence and its "Quantified over" line dimension by dimension: pick a clause, a listed construct, a listed case or a dimension of the quantifier that none of the earlier changes attacked, or attack an attacked clause through a construct, an API entry point (EvaluateString, EvaluateFile, NewTemplate, Template.String, Template.Response, Configure, the Register*Func family) or a configuration that none of them used. Prefer a change whose trigger somebody testing this property with randomly generated templates, data and call sequences would plausibly NOT generate: a legal but unusual spelling or clause form, a rarely used built-in, directive, option or API entry point, a combination of two or three constructs, a value at a boundary of a type or a length, a name or path with an unusual shape, a particular order or repetition of calls, a file system detail, a less common Go type in the data, a particular nesting depth or count (the third of something, more than N of something), a particular position (first, last, only) of something, a size threshold. It must be something a maintainer would plausibly do (a small feature or convenience with one corner wrong, a helper extracted that is not equivalent for one caller, a data structure change, a reordered check, a library call with slightly different semantics, an early return or fast path, a cache, a 'simplification', a fixed-size buffer or limit, an error message 'improvement'). The change must still break the stated property for a whole class of inputs (say which), compile, and keep the existing suite green. In this round prefer a change of the kind that happens when somebody TIDIES UP: (a) two functions or branches that do almost the same are merged into one helper, and the helper is right for one caller and subtly wrong for the other; (b) a hand-written loop is replaced by a standard-library call - or one library call by a neighbouring one - whose semantics differ in a corner: strings.TrimSpace / Trim / TrimLeft / TrimPrefix, strings.Fields / Split / SplitN, strings.Title / ToUpper / unicode.ToUpper / ToTitle, strings.EqualFold / ==, strings.Index / LastIndex / IndexByte / IndexRune, strings.Replace with a count / ReplaceAll, len(s) / utf8.RuneCountInString / len([]rune(s)), s[i] / []rune(s)[i], strconv.Atoi / ParseInt with base 0 or a bit size / ParseFloat, strconv.Itoa / FormatInt / fmt.Sprint / %v / %d / %g / %f, strconv.Quote / %q, html.EscapeString / a hand-written replacer, path.Join / filepath.Join / string concatenation, path.Clean, filepath.Ext / strings.HasSuffix, filepath.Rel, filepath.Walk / WalkDir / os.ReadDir, os.ReadFile / io.ReadAll, sort.Strings / sort.Slice / slices.Sort, maps.Keys, append / copy / slices.Clone / slices.Insert, math.Round / Floor / Trunc / int(x), integer division and modulo of negative numbers, bytes.Buffer / strings.Builder; (c) a type switch replaces a chain of ifs (or the other way round) and one kind falls into another arm; (d) an early return is added or a condition is simplified with De Morgan and one combination comes out differently; (e) an error value is wrapped, compared or passed on differently (errors.Is / ==, %w / %v, a nil interface holding a nil pointer). Read the code for places where such a tidy-up suggests itself (duplicated blocks, long if chains, manual loops over runes or bytes, repeated conversions) and make it - with the slip. The result must read as a clean-up a reviewer would wave through."""
 
 
 def funcs_of(patch):
